@@ -431,6 +431,13 @@ func runC01(sc C01Sc, c *kit.Case) *kit.Violation {
 			if d.K%3 == 2 {
 				v, _, _ := refmodel.Parse([]byte(it.encV))
 				data = mkQuery([]byte("sp"), "put", mkArgs(it.id, BKV{K: "v", V: v}, BKV{K: "seq", V: bint(0)}, BKV{K: "token", V: bstr(it.token)}))
+			} else if d.K%5 == 3 {
+				// a correctly tokened announce whose port is outside 1..65535 (stored as it comes, or not at all)
+				port := []int64{70000, -1, 65536, 1 << 31, 0, 1 << 40}[d.K%6]
+				data = mkQuery([]byte("sa"), "announce_peer", mkArgs(it.id, BKV{K: "info_hash", V: bs(make([]byte, 20))}, BKV{K: "port", V: bint(port)}, BKV{K: "token", V: bstr(it.token)}))
+				c.Label("tokened-announce-odd-port")
+			} else if d.K%5 == 4 {
+				data = mkQuery([]byte("sg"), "get_peers", mkArgs(it.id, BKV{K: "info_hash", V: bs(make([]byte, 20))}))
 			} else {
 				data = mkQuery([]byte("sg"), "get", mkArgs(it.id, BKV{K: "target", V: bs(tgt[:])}))
 			}
@@ -542,6 +549,9 @@ func runC01(sc C01Sc, c *kit.Case) *kit.Violation {
 	fresh := &net.UDPAddr{IP: net.IP{82, 82, 82, 82}, Port: 8282}
 	if sc.Cfg.Dual {
 		fresh.IP = fresh.IP.To16()
+		if len(sc.Msgs)%2 == 1 {
+			fresh.IP = net.ParseIP("2001:db8:82:82::8282").To16() // a global IPv6 peer
+		}
 	}
 	outs, ok := sv.exchange(c, fresh, mkQuery([]byte("fresh-ping"), "ping", mkArgs([20]byte{0xf0})), !silent)
 	if !ok {
